@@ -522,9 +522,9 @@ class Chunk(_CIFBase):
         for key, val in self._pairs.items():
             v = _format_value(val)
             if v.startswith(';'):
-                f.write(f'_{key}\n{v}\n')
+                f.write(f'{_format_tag(key)}\n{v}\n')
             else:
-                f.write(f'_{key} {v}\n')
+                f.write(f'{_format_tag(key)} {v}\n')
 
 
 class Loop(_CIFBase):
@@ -599,7 +599,7 @@ class Loop(_CIFBase):
         _write_comment(f, self.comment)
         f.write('loop_\n')
         for key in self._columns:
-            f.write(f'_{key}\n')
+            f.write(f'{_format_tag(key)}\n')
         formatted_values = [
             tuple(map(_format_value, row))
             for row in zip(*self._columns.values(), strict=True)
@@ -834,6 +834,15 @@ def _is_reserved_word(value: str) -> bool:
 
 def _encode_non_ascii(s: str) -> str:
     return s.encode('ascii', 'backslashreplace').decode('ascii')
+
+
+def _format_tag(key: str) -> str:
+    tag = _encode_non_ascii(str(key))
+    if not tag or any(c.isspace() for c in tag):
+        raise ValueError(
+            f"CIF tags must not be empty or contain spaces or line breaks, got: '{tag}'"
+        )
+    return f'_{tag}'
 
 
 def _format_value(value: Any) -> str:
